@@ -63,8 +63,17 @@ def exact_value(num):
 
 
 def gen_numeral(rng):
-    c = rng.randrange(12)
-    if c == 0:
+    c = rng.randrange(16)
+    if c >= 12:
+        # every feature of the SVG number grammar chosen independently, so that each COMBINATION occurs
+        # ('.5e3', '5.E-2', '007.50e+0'): [digits][.][digits][(e|E)[sign]digits] with at least one mantissa digit
+        digs = lambda lo, hi: "".join(rng.choice("0123456789") for _ in range(rng.randint(lo, hi)))
+        ip = digs(1, 5) if rng.random() < 0.6 else ""
+        fp = digs(1, 5) if (not ip or rng.random() < 0.6) else ""
+        s = ip + ("." if (fp or rng.random() < 0.3) else "") + fp
+        if rng.random() < 0.6:
+            s += rng.choice("eE") + rng.choice(("", "+", "-")) + digs(1, 2)
+    elif c == 0:
         s = str(rng.randint(0, 10 ** rng.randint(1, 9)))
     elif c == 1:
         s = "%d.%s" % (rng.randint(0, 9999), "".join(rng.choice("0123456789") for _ in range(rng.randint(1, 12))))
